@@ -2448,7 +2448,9 @@ impl<'input, T: Input> Scanner<'input, T> {
 
         // Skip over ':'.
         self.skip_non_blank();
-        if self.input.look_ch() == '\t'
+        // (Block indentation rules do not apply inside flow collections: JSON-style `"a":<TAB>1`.)
+        if self.flow_level == 0
+            && self.input.look_ch() == '\t'
             && !self.skip_ws_to_eol(SkipTabs::Yes)?.has_valid_yaml_ws()
             && (self.input.peek() == '-' || self.input.next_is_alpha())
         {
